@@ -2292,8 +2292,9 @@ class Recipe:
                 step.frm.append(None)
                 solute, solvent, kwargs = step.operands
                 if isinstance(solvent, Container):
-                    # containers can change while baking the recipe
-                    solvent = self.results[solvent.name]
+                    # containers can change while baking the recipe; they are tracked under their declared name
+                    solvent_name = solvent.name
+                    solvent = self.results[solvent_name]
 
                 solute_names = ', '.join([solute.name for solute in solute]) if isinstance(solute, Iterable) else solute.name
                 # kwargs should have two out of concentration, quantity, and total_quantity
@@ -2314,11 +2315,11 @@ class Recipe:
                 self.used.add(dest_name)
                 results = Container.create_solution(solute, solvent, dest_name, **kwargs)
                 if isinstance(solvent, Container):
-                    self.used.add(solvent.name)
-                    self.results[solvent.name], self.results[dest_name] = results
+                    self.used.add(solvent_name)
+                    self.results[solvent_name], self.results[dest_name] = results
                     # the solvent container is the source of this step
-                    step.frm = [solvent, self.results[solvent.name]]
-                    step.objects_used.add(solvent.name)
+                    step.frm = [solvent, self.results[solvent_name]]
+                    step.objects_used.add(solvent_name)
                 else:
                     self.results[dest_name] = results
                 step.substances_used = self.results[dest_name].get_substances()
